@@ -23,6 +23,8 @@ type Obl struct {
 	blk    *ssa.BasicBlock
 	idx    int
 	Inputs []string // terms to get-value
+	Props  []string // clause-level property filter (post obligations)
+	Clause *Clause
 }
 
 type fact struct {
@@ -82,6 +84,8 @@ type fnVC struct {
 	space     string
 	closures map[ssa.Value]*ssa.MakeClosure
 	defers   []*ssa.Defer
+	curClause *Clause
+	ghostDone bool
 }
 
 func (v *fnVC) fresh(prefix string) string {
@@ -116,16 +120,40 @@ func (v *fnVC) newConst(prefix, sort string) T {
 }
 
 func (v *fnVC) oblige(kind, text string, goal T, pos token.Pos) {
-	key := kind + "[" + text + "]"
+	label := text
+	if strings.HasPrefix(kind, "rte.") {
+		if v.con != nil && v.con.NoNil && kind == "rte.nil" {
+			v.assume(implies(v.reach[v.blk], goal))
+			return
+		}
+		// name run-time-error obligations by the source line, not by SSA temporaries
+		if pos.IsValid() {
+			p := v.e.prog.Fset.Position(pos)
+			if sl := v.e.srcLine(p.Filename, p.Line); sl != "" {
+				if len(sl) > 70 {
+					sl = sl[:70]
+				}
+				label = sl
+			}
+		}
+		text = kind + ": " + text
+	}
+	key := kind + "[" + label + "]"
+	if v.curClause != nil && v.curClause.Name != "" {
+		key = kind
+	}
 	v.oblCnt[key]++
 	name := fmt.Sprintf("%s#%s#%d", v.fn.RelString(v.fn.Pkg.Pkg), key, v.oblCnt[key])
 	v.seq++
 	o := &Obl{Name: name, Kind: kind, Fn: v.fn.String(), Text: text, Goal: goal, Reach: v.reach[v.blk], blk: v.blk, idx: v.seq, Inputs: v.params}
+	if v.curClause != nil {
+		o.Props, o.Clause = v.curClause.Props, v.curClause
+	}
 	if pos.IsValid() {
 		o.Pos = v.e.prog.Fset.Position(pos).String()
 	}
 	v.obls = append(v.obls, o)
-	if strings.HasPrefix(kind, "rte.") || strings.HasPrefix(kind, "pre@") {
+	if (strings.HasPrefix(kind, "rte.") && kind != "rte.conv") || strings.HasPrefix(kind, "pre@") {
 		// execution continues past this point only if the check held
 		v.assume(implies(v.reach[v.blk], goal))
 	}
@@ -553,7 +581,7 @@ func (v *fnVC) rangeFact(t T, ty types.Type) T {
 		return and(app(">=", app("slen", t), "0"), app("<=", app("slen", t), "9223372036854775807"))
 	}
 	if _, ok := ty.Underlying().(*types.Slice); ok {
-		return and(app("<=", "0", app("slen_", t)), app("<=", app("slen_", t), app("-", app("scap", t), "0")), app("<=", "0", app("soff", t)), app("<=", "0", app("scap", t)), app("<=", app("+", app("soff", t), app("scap", t)), "9223372036854775807"), or(eq(app("sbase", t), "0"), v.allocd(app("sbase", t))), implies(eq(app("sbase", t), "0"), eq(app("scap", t), "0")))
+		return and(app("<=", "0", app("slen_", t)), app("<=", app("slen_", t), app("-", app("scap", t), "0")), app("<=", "0", app("soff", t)), app("<=", "0", app("scap", t)), app("<=", app("+", app("soff", t), app("scap", t)), "9223372036854775807"), or(eq(app("sbase", t), "0"), v.allocd(app("sbase", t))), implies(eq(app("sbase", t), "0"), and(eq(app("scap", t), "0"), eq(app("soff", t), "0"))))
 	}
 	return "true"
 }
@@ -1575,11 +1603,15 @@ func (v *fnVC) convert(x *ssa.Convert) {
 				lo = app("fp.gt", src, fmt.Sprintf("((_ to_fp %s) RNE (- 1.0))", fsort))
 				hi = app("fp.lt", src, two(dbits))
 			}
-			v.oblige("rte.conv", exprText(x), and(not(app("fp.isNaN", src)), lo, hi), x.Pos())
+			// no panic at run time: outside the range the result is implementation-defined, so the
+			// obligation is not assumed afterwards and the value is left unconstrained there
+			inr := and(not(app("fp.isNaN", src)), lo, hi)
+			v.oblige("rte.conv", exprText(x), inr, x.Pos())
+			res := v.havoc(x)
 			if dsigned {
-				v.define(x, fmt.Sprintf("((_ fp.to_sbv %d) RTZ %s)", dbits, src))
+				v.assume(implies(inr, eq(res, fmt.Sprintf("((_ fp.to_sbv %d) RTZ %s)", dbits, src))))
 			} else {
-				v.define(x, fmt.Sprintf("((_ fp.to_ubv %d) RTZ %s)", dbits, src))
+				v.assume(implies(inr, eq(res, fmt.Sprintf("((_ fp.to_ubv %d) RTZ %s)", dbits, src))))
 			}
 		} else {
 			v.P.add("f2i", "(declare-fun f2i (F64) Int)")
